@@ -55,7 +55,7 @@ func drawSched(rt *rapid.T) schedPlan {
 	if rapid.Bool().Draw(rt, "sched-all") {
 		p.Points = 0xffffffff
 	} else {
-		p.Points = 1 << uint(rapid.IntRange(1, 18).Draw(rt, "sched-point"))
+		p.Points = 1 << uint(rapid.IntRange(1, 19).Draw(rt, "sched-point"))
 	}
 	return p
 }
